@@ -279,15 +279,29 @@ def writers(chk, F):
 
 def fallback(chk, F):
     # cached(): Err of download -> File::open(&path) -> Ok(file)
-    fn = F.find(CLI, "config::cached")
+    # `download(..).or_else(|err| match File::open(..) { .. })` is the match it stands for (combinators and their closures put back
+    # in place; download_to_file and the other functions of config stay calls)
+    fn = F.find(CLI, "config::cached", inline=True, keep=("config::", "Option::<T>", "Iterator", "wrap_err"))
     FK = "rink::config::cached"
     dls = fn.call_sites(lambda c: c["path"].endswith("config::download_to_file"))
     if len(dls) != 1:
         raise AnchorLost("cached() does not call download_to_file exactly once")
     ok_ret = []
+    # the return slot and what is moved into it
+    flows = {0}
+    grew = True
+    while grew:
+        grew = False
+        for i, j, st in fn.stmts():
+            rv = st.get("rv", {})
+            if st["k"] == "assign" and st["place"]["l"] in flows and not st["place"]["p"] and rv.get("k") == "use":
+                pl_ = facts.place_of(rv["a"])
+                if pl_ and not pl_["p"] and pl_["l"] not in flows:
+                    flows.add(pl_["l"])
+                    grew = True
     for i, j, st in fn.stmts():
         rv = st.get("rv", {})
-        if st["k"] == "assign" and st["place"]["l"] == 0 and not st["place"]["p"] and rv.get("k") == "agg" and rv.get("adt", "").endswith("result::Result") and rv["variant"] == "Ok":
+        if st["k"] == "assign" and st["place"]["l"] in flows and not st["place"]["p"] and rv.get("k") == "agg" and rv.get("adt", "").endswith("result::Result") and rv["variant"] == "Ok":
             ap = fn.apath(rv["ops"][0])
             gs = [fn.guard_desc(g) for g in fn.guards_of(i)]
             ok_ret.append((i, j, ap, gs))
